@@ -412,12 +412,14 @@ def discharge(ctx, resolver, ob, timeout_ms, fuel=2):
     formulas = list(ob.assumptions) + [ob.goal]
     extra = unfold(ctx, resolver, formulas, fuel)
 
-    def cone(rounds, tmo):
+    def cone(rounds, tmo, seed=0):
         """only the assumptions in the cone of influence of the goal (shared uninterpreted symbols).  Dropping
         assumptions can only lose proofs, never create one: `unsat` is sound, anything else is ignored."""
         keep = _cone_of_influence(ob.goal, list(ob.assumptions) + list(extra), rounds)
         s3 = z3.Solver()
         s3.set('timeout', tmo)
+        if seed:
+            s3.set('random_seed', seed)
         s3.add(T.atoms_distinct())
         for a in keep:
             s3.add(a)
@@ -429,9 +431,12 @@ def discharge(ctx, resolver, ob, timeout_ms, fuel=2):
 
     # 1. the reduced query first: most valid obligations need a handful of assumptions, and the irrelevant quantified
     #    well-formedness axioms are what makes the full query slow and unstable
-    ok, s = cone(2, min(timeout_ms, 10000))
-    if ok:
-        return 'discharged', time.time() - t0, None, s
+    #    (quantifier instantiation is sensitive to the seed and to the size of the cone: a valid goal that takes 0.1 s in one
+    #    configuration can take a minute in the next, so several cheap configurations are tried before the expensive ones)
+    for rounds, seed in ((2, 0), (2, 7), (1, 7), (1, 3)):
+        ok, s = cone(rounds, min(timeout_ms, 10000), seed)
+        if ok:
+            return 'discharged', time.time() - t0, None, s
     # 2. the full query (also the only one whose model is a counterexample)
     s = z3.Solver()
     s.set('timeout', timeout_ms)
